@@ -5,6 +5,10 @@ V = os.path.dirname(os.path.dirname(os.path.abspath(__file__)))
 
 # id: (level, engine, technique, level text, level note, design section)
 CHECKS = {
+ "C13": ("model_checking", "e3b",
+  "stateless DFS over ALL item-level schedules of the two nested parallel regions, executed on the repository's own code with the crate rayon replaced by a controlled-scheduler model (baton scheduler on real threads, recorded choice points, no partial-order reduction); plus BFS over all histories (depth 3) of runs sharing dump folder and data directory on the real binary",
+  "Every schedule of worlds 1x4, 2x2, 3x1 (txs x outputs) and a two-block world, on bitcoin and litecoin (15 520 complete in-process runs in quick; 2x3, 4x1 and 3x2 = 277 200 in thorough), through csvdump / simplestats / opreturn (and unspent / balances where affordable): each observation must equal schedule 0's, which must equal the model; measured schedule counts equal the closed-form number of linear extensions. All 258 run sequences x 3 initial dump-folder states x {1,16} threads on the real binary: results equal fresh-folder results, other files untouched, blk/xor files and index content unchanged. A free-running real-rayon pass (1..64 threads, blocks of hundreds of txs) is included as labelled sampling.",
+  "The scheduler model over-approximates rayon's documented ordering freedom at item granularity; interleavings inside one closure are not explored (closures hold no synchronisation; safe Rust excludes data races). A canary closure must show all 6 orders or the run is a machinery error.", "6/C13"),
  "C17": ("model_checking", "e3a",
   "all set partitions of the heights into blk files x range shapes; the real binary's syscall trace (LD_PRELOAD interposer: open/close of blk files interleaved with per-height markers) is replayed through the open-set automaton of the statement and its peak compared with the model's overlap number; plus black-box runs under a calibrated RLIMIT_NOFILE",
   "For every one of the Bell(6)=203 (thorough Bell(8)=4140) height->file assignments and 4 range shapes the trace must satisfy: after the block of height h is delivered no open blk file has its highest block <= h, and the peak number of open blk files equals the overlap number; the same run must succeed with RLIMIT_NOFILE = N1 + overlap - 1 (N1 calibrated on the single-file layout with the same binary); 200 and 1200 disjoint one-block files run under N1 with trace peak 1.",
